@@ -70,11 +70,30 @@ Section C07Stmts.
     forall (shs : list shell), Forall (fun s => List.length (am s) = 1) shs -> wf_shells is0 shs ->
       wf_shells is0 (flat_map (rm_free_shell is0) shs).
 
-  (* the finding of DESIGN section 7 #5: a fused shell loses a coefficient row but keeps both momenta *)
-  Definition rm_free_fused_refuted_stmt (x1 x2 c1 c2 c3 z : N) : Prop :=
-    is0 z = true -> is0 c1 = false -> is0 c2 = false -> is0 c3 = false ->
-    let s := mkShell "gto" "" [0%Z; 1%Z] [x1; x2] [[c1; z]; [c2; c3]] in
-    wf_shell is0 s /\ exists s', rm_free_shell is0 s = [s'] /\ am s' = [0%Z; 1%Z] /\ coefs s' = [[c2; c3]] /\ ~ am_ok s'.
+  (* after the repair of remove_free_primitives (fused shells lose the momentum of a removed contraction):
+     the same specification for every well-formed shell list, fused shells included *)
+  Definition rm_free_spec_all_stmt : Prop :=
+    forall (shs : list shell) f, wf_shells is0 shs ->
+      (FSin is0 same f (flat_map (rm_free_shell is0) shs) <->
+       exists g, In g (shells_cfuns shs) /\ 2 <= List.length (nonzeros is0 (map snd (snd g))) /\ feq is0 same f g).
+  Definition rm_free_wf_all_stmt : Prop :=
+    forall (shs : list shell), wf_shells is0 shs -> wf_shells is0 (flat_map (rm_free_shell is0) shs).
+
+  (* uncontract_segmented with its seen-set: the function set is still one unit function per (momentum, primitive) ... *)
+  Definition unc_seg_shells_spec_stmt : Prop :=
+    forall (shs : list shell) f,
+      (FSin is0 same f (unc_seg_shells same one_lit shs []) <->
+       exists s l x, In s shs /\ In l (am s) /\ In x (exps s) /\ feq is0 same f (l, [(x, one_lit)])).
+  (* ... and no primitive is emitted twice: two different output shells never have the same momenta and equal exponents *)
+  Definition unc_seg_shells_nodup_stmt : Prop :=
+    forall (shs : list shell) i j s t x y,
+      nth_error (unc_seg_shells same one_lit shs []) i = Some s ->
+      nth_error (unc_seg_shells same one_lit shs []) j = Some t ->
+      am s = am t -> exps s = [x] -> exps t = [y] -> same x y = true -> i = j.
+  (* every output shell is a unit shell of some input shell *)
+  Definition unc_seg_shells_shape_stmt : Prop :=
+    forall (shs : list shell) u, In u (unc_seg_shells same one_lit shs []) ->
+      exists s x, In s shs /\ In x (exps s) /\ u = unit_shell one_lit s x.
 End C07Stmts.
 
 (* optimize_general on rational coefficients: same linear span, never more non-zeros *)
